@@ -292,6 +292,9 @@ func (e *Engine) VerifyFunction(fn *ssa.Function, ct *Contract) (c *FnCtx) {
 		for _, f := range allocFacts(v, st.ac) {
 			c.addFact(nil, f)
 		}
+		if _, isPtr := fv.Type().Underlying().(*types.Pointer); isPtr {
+			c.addFact(nil, Neq(v.X, Num(0))) // a captured variable is a live cell
+		}
 		fr.vals[fv] = v
 	}
 	var recv *Val
@@ -300,10 +303,32 @@ func (e *Engine) VerifyFunction(fn *ssa.Function, ct *Contract) (c *FnCtx) {
 		recv = args[0]
 		cargs = args[1:]
 	}
+	if fn.Parent() != nil && ct.Recv != nil {
+		// function literal: the "receiver" in the contract header only names the enclosing method;
+		// captured variables are bound by name below
+		cc := *ct
+		cc.Recv = nil
+		ct = &cc
+		c.contract = ct
+		fr.contract = ct
+	}
 	vars, err := contractVars(ct, fn.Signature, recv, cargs, nil)
 	if err != nil {
 		c.errorf("%v", err)
 		return c
+	}
+	for _, fv := range fn.FreeVars {
+		// captured variables are cells: the contract sees their value at entry
+		if pv := fr.vals[fv]; pv != nil {
+			if _, isPtr := fv.Type().Underlying().(*types.Pointer); isPtr {
+				func() {
+					defer func() { recover() }()
+					vars[fv.Name()] = c.load(st, pv)
+				}()
+			} else {
+				vars[fv.Name()] = pv
+			}
+		}
 	}
 	pkg := c.pkgOfContract(ct, fn)
 	// ghost (logical) parameters: universally quantified
@@ -362,6 +387,9 @@ func (e *Engine) VerifyFunction(fn *ssa.Function, ct *Contract) (c *FnCtx) {
 		c.notes = append(c.notes, "function never returns normally")
 		return c
 	}
+	if fn.Parent() != nil {
+		recv = nil
+	}
 	if len(c.errs) > 0 {
 		return c
 	}
@@ -374,6 +402,13 @@ func (e *Engine) VerifyFunction(fn *ssa.Function, ct *Contract) (c *FnCtx) {
 	}
 	for k, v := range c.ghostVals {
 		vars2[k] = v
+	}
+	for _, fv := range fn.FreeVars {
+		if v, ok := vars[fv.Name()]; ok {
+			if _, clash := vars2[fv.Name()]; !clash {
+				vars2[fv.Name()] = v
+			}
+		}
 	}
 	post := &Env{c: c, cur: exit, old: fr.entry, vars: vars2, pkg: pkg}
 	c.preEnv = &Env{c: c, cur: fr.entry, old: fr.entry, vars: vars, pkg: pkg}
